@@ -58,27 +58,58 @@ type Log = Arc<Mutex<Vec<Value>>>;
 static LAST_PANIC: Mutex<String> = Mutex::new(String::new());
 
 // ---------------------------------------------------------------------------------------------
-// Persister: always completes; counts the monitor updates of its node (a manager snapshot is in
-// sync with the monitors iff no update happened since it was taken).
+// Persister: counts the monitor updates of its node (a manager snapshot is in sync with the monitors
+// iff no update happened since it was taken). Writes complete at once unless the script switched the
+// node to asynchronous persistence (`persist_mode`): then a write is reported InProgress and stays in
+// flight until the script reports it complete (`complete`: ChainMonitor::channel_monitor_updated).
 
 struct CountPersister {
 	updates: AtomicU64,
+	/// asynchronous persistence: the next writes are reported InProgress
+	in_progress: Mutex<bool>,
+	/// writes in flight (channel, update id), oldest first
+	pending: Mutex<Vec<(ChannelId, u64)>>,
+	/// writes reported InProgress that the engine has not logged yet
+	fresh: Mutex<Vec<(ChannelId, u64)>>,
+}
+
+impl CountPersister {
+	fn new() -> Self {
+		CountPersister { updates: AtomicU64::new(0), in_progress: Mutex::new(false), pending: Mutex::new(Vec::new()), fresh: Mutex::new(Vec::new()) }
+	}
+	fn status(&self, m: &ChannelMonitor<TestChannelSigner>) -> ChannelMonitorUpdateStatus {
+		let c = m.channel_id();
+		// the documented contract: while a write of a channel is in flight no later write of that channel is
+		// reported Completed
+		let inprog = *self.in_progress.lock().unwrap() || self.pending.lock().unwrap().iter().any(|p| p.0 == c);
+		if inprog {
+			let id = m.get_latest_update_id();
+			// (a write of the whole monitor after a block repeats the latest update id: ChainMonitor keeps one entry)
+			if !self.pending.lock().unwrap().contains(&(c, id)) {
+				self.pending.lock().unwrap().push((c, id));
+				self.fresh.lock().unwrap().push((c, id));
+			}
+			ChannelMonitorUpdateStatus::InProgress
+		} else {
+			ChannelMonitorUpdateStatus::Completed
+		}
+	}
 }
 
 impl Persist<TestChannelSigner> for CountPersister {
 	fn persist_new_channel(
-		&self, _n: MonitorName, _m: &ChannelMonitor<TestChannelSigner>,
+		&self, _n: MonitorName, m: &ChannelMonitor<TestChannelSigner>,
 	) -> ChannelMonitorUpdateStatus {
 		self.updates.fetch_add(1, Ordering::SeqCst);
-		ChannelMonitorUpdateStatus::Completed
+		self.status(m)
 	}
 	fn update_persisted_channel(
-		&self, _n: MonitorName, u: Option<&ChannelMonitorUpdate>, _m: &ChannelMonitor<TestChannelSigner>,
+		&self, _n: MonitorName, u: Option<&ChannelMonitorUpdate>, m: &ChannelMonitor<TestChannelSigner>,
 	) -> ChannelMonitorUpdateStatus {
 		if u.is_some() {
 			self.updates.fetch_add(1, Ordering::SeqCst);
 		}
-		ChannelMonitorUpdateStatus::Completed
+		self.status(m)
 	}
 	fn archive_persisted_channel(&self, _n: MonitorName) {}
 }
@@ -311,9 +342,63 @@ impl Net {
 		for _ in 0..8 {
 			if !self.drain_once() { break; }
 		}
+		self.log_fresh();
+	}
+
+	/// Monitor writes that were reported InProgress since the last call (what the node's user knows: its own
+	/// persister returned InProgress and it has not called channel_monitor_updated yet).
+	fn log_fresh(&mut self) {
+		for i in 0..self.nodes.len() {
+			let fresh: Vec<(ChannelId, u64)> = self.persisters[i].fresh.lock().unwrap().drain(..).collect();
+			for (cid, id) in fresh {
+				let c = self.chan(&cid);
+				self.ev(json!({"ev":"persist","node":i,"chan":c,"id":id,"status":"inprogress"}));
+			}
+		}
+	}
+
+	/// The user reports writes of node `i` complete: "all" (until none is left), "oldest" or "newest", optionally
+	/// only those of channel `only`.
+	fn complete_writes(&mut self, i: usize, which: &str, only: Option<usize>) -> bool {
+		self.log_fresh();
+		let mut any = false;
+		for _ in 0..64 {
+			let pend: Vec<(ChannelId, u64)> = self.persisters[i].pending.lock().unwrap().clone();
+			let cand: Vec<(ChannelId, u64)> = pend.iter().filter(|x| only.map_or(true, |c| self.chan(&x.0) == c)).cloned().collect();
+			if cand.is_empty() { break; }
+			let pick: Vec<(ChannelId, u64)> = match which { "all" => cand.clone(), "newest" => vec![cand[cand.len() - 1]], _ => vec![cand[0]] };
+			for (cid, id) in pick {
+				// (completing one write may release held updates, which add to the list)
+				let mut p = self.persisters[i].pending.lock().unwrap();
+				if let Some(k) = p.iter().position(|x| *x == (cid, id)) { p.remove(k); } else { continue; }
+				drop(p);
+				let c = self.chan(&cid);
+				self.ev(json!({"ev":"complete","node":i,"chan":c,"id":id}));
+				let _ = self.nodes[i].chain_monitor.chain_monitor.channel_monitor_updated(cid, id);
+				self.drain();
+				any = true;
+			}
+			if which != "all" { break; }
+		}
+		any
+	}
+
+	/// Every node goes back to synchronous persistence and reports every write in flight complete.
+	fn complete_everything(&mut self) -> bool {
+		let mut any = false;
+		for i in 0..self.nodes.len() {
+			*self.persisters[i].in_progress.lock().unwrap() = false;
+			if self.complete_writes(i, "all", None) { any = true; }
+		}
+		any
+	}
+
+	fn writes_in_flight(&self) -> usize {
+		self.persisters.iter().map(|p| p.pending.lock().unwrap().len()).sum()
 	}
 
 	fn drain_once(&mut self) -> bool {
+		self.log_fresh();
 		let mut handled = 0;
 		let mut want_disc: Vec<(usize, usize)> = Vec::new();
 		for i in 0..self.nodes.len() {
@@ -450,16 +535,19 @@ impl Net {
 	fn settle_chain(&mut self) {
 		let n = self.nodes.len();
 		for i in 0..n { self.hold[i] = false; }
+		self.complete_everything();
 		for a in 0..n { for b in a + 1..n { if self.connected.contains_key(&(a, b)) { self.do_reconnect(a, b); } } }
 		let links = self.all_links();
 		self.drain();
 		self.pump(&links, None);
+		self.complete_everything();
 		self.ev(json!({"ev":"settle_chain","height":self.height()}));
 		let rounds = self.max_cltv.saturating_sub(self.height()) + 40;
 		let mut idle_rounds = 0;
 		for r in 0..rounds + 400 {
 			let before = self.log.lock().unwrap().len();
 			self.mine_block(false);
+			self.complete_everything();
 			self.pump(&links, None);
 			let quiet = self.log.lock().unwrap().len() == before;
 			if quiet { idle_rounds += 1; } else { idle_rounds = 0; }
@@ -802,6 +890,10 @@ impl Net {
 			(PaymentHash(bitcoin::hashes::sha256::Hash::hash(&pre).to_byte_array()), PaymentPreimage(pre))
 		};
 		let h = self.hash(&hash.0);
+		if from >= self.nodes.len() { return false; }
+		// a user that is not holding its events back has handled everything queued so far
+		if !self.hold[from] { self.drain(); }
+		let evs_handled = !self.hold[from];
 		if op["auto"].as_bool().unwrap_or(false) || keysend {
 			// router-driven send (the node's own router on the announced graph), optional retries
 			let to = op["to"].as_u64().unwrap_or(0) as usize;
@@ -821,7 +913,8 @@ impl Net {
 			let r = match &res { Ok(()) => "ok", Err(RetryableSendFailure::DuplicatePayment) => "dup", Err(_) => "err" };
 			if res.is_ok() { if self.accepted_ids.contains(&id) { self.id_reused = true; } else { self.accepted_ids.push(id); } }
 			let rec = json!({"ev":"send","node":from,"pid":id,"hash":h,"dst":to,"auto":true,"keysend":keysend,"amt":amt,"total":amt,
-				"sreg": sreg, "parts": [{"path": [], "amt": amt, "oamt": amt, "fee": 0, "cltv": 0}], "res": r, "height": self.height(), "tlvs": [], "meta": 0});
+				"sreg": sreg, "parts": [{"path": [], "amt": amt, "oamt": amt, "fee": 0, "cltv": 0}], "res": r, "height": self.height(), "tlvs": [], "meta": 0,
+				"retries": retries, "evs_handled": evs_handled});
 			self.log.lock().unwrap().insert(mark, rec);
 			self.drain();
 			return true;
@@ -892,11 +985,24 @@ impl Net {
 			}
 		}
 		let mark = self.log.lock().unwrap().len();
-		let res = self.nodes[from].node.send_payment_with_route(route, hash, onion, pid);
+		// `retries`: the route of the first attempt is the one the script built (the user's router answers the
+		// first query with it), later attempts are routed by the payer's router over the announced graph
+		let retries = op["retries"].as_u64();
+		let res = match retries {
+			None => self.nodes[from].node.send_payment_with_route(route, hash, onion, pid),
+			Some(r) => {
+				let rp = route.route_params.clone();
+				self.nodes[from].router.expect_find_route(rp.clone(), Ok(route));
+				let res = self.nodes[from].node.send_payment(hash, onion, pid, rp, Retry::Attempts(r as u32));
+				self.nodes[from].router.next_routes.lock().unwrap().clear();
+				res
+			},
+		};
 		let r = match &res { Ok(()) => "ok", Err(RetryableSendFailure::DuplicatePayment) => "dup", Err(_) => "err" };
 		if res.is_ok() { if self.accepted_ids.contains(&id) { self.id_reused = true; } else { self.accepted_ids.push(id); } }
 		let rec = json!({"ev":"send","node":from,"pid":id,"hash":h,"dst":dst,"auto":false,"keysend":false,"amt":sum,"total":total,
-			"sreg": sreg, "parts": parts, "res": r, "height": self.height(), "tlvs": tlv_log, "meta": meta_class});
+			"sreg": sreg, "parts": parts, "res": r, "height": self.height(), "tlvs": tlv_log, "meta": meta_class,
+			"retries": retries.unwrap_or(0), "evs_handled": evs_handled});
 		self.log.lock().unwrap().insert(mark, rec);
 		self.drain();
 		true
@@ -970,6 +1076,9 @@ impl Net {
 		if stale && (!idle || self.id_reused || self.sent_since_save[i]) && !allow_unclean { return false; }
 		// (the manager is synced by best_block_updated only: no restart once transactions were mined)
 		if self.mined_any { return false; }
+		// (a crash while a monitor write is in flight leaves a monitor that is behind the manager: not driven)
+		if !self.persisters[i].pending.lock().unwrap().is_empty() { return false; }
+		let was_async = std::mem::replace(&mut *self.persisters[i].in_progress.lock().unwrap(), false);
 		// the process dies: its connections and everything queued on them are gone
 		for j in 0..self.nodes.len() {
 			if j != i && *self.connected.get(&Self::key(i, j)).unwrap_or(&false) {
@@ -1004,6 +1113,7 @@ impl Net {
 		}
 		// loading the monitors is not an update
 		self.persisters[i].updates.store(before, Ordering::SeqCst);
+		*self.persisters[i].in_progress.lock().unwrap() = was_async;
 		self.saves[i] = Some((bytes, before, idle));
 		self.restarts += 1;
 		self.ev(json!({"ev":"restart","node":i,"stale":stale}));
@@ -1028,9 +1138,10 @@ impl Net {
 		let links = self.all_links();
 		for _ in 0..20 {
 			self.drain();
+			let completed = self.complete_everything();
 			let queued: usize = self.queues.values().map(|q| q.len()).sum();
 			let moved = self.pump(&links, None);
-			if queued == 0 && moved == 0 {
+			if queued == 0 && moved == 0 && !completed {
 				self.drain();
 				if self.queues.values().all(|q| q.is_empty()) { break; }
 			}
@@ -1038,7 +1149,7 @@ impl Net {
 		for i in 0..n { self.log_recent(i, false); }
 		let b = self.balances();
 		let pending_q: usize = self.queues.values().map(|q| q.len()).sum();
-		self.ev(json!({"ev":"quiet","height":self.height(),"nodes":b,"queued":pending_q,"closed":self.closed_seen,"settled":self.settled}));
+		self.ev(json!({"ev":"quiet","height":self.height(),"nodes":b,"queued":pending_q,"closed":self.closed_seen,"settled":self.settled,"writes":self.writes_in_flight()}));
 	}
 
 	fn step(&mut self, op: &Value) {
@@ -1191,6 +1302,18 @@ impl Net {
 					true
 				} else { false }
 			},
+			"persist_mode" => {
+				if node < n {
+					let inprog = op["mode"].as_str() == Some("inprogress");
+					*self.persisters[node].in_progress.lock().unwrap() = inprog;
+					self.ev(json!({"ev":"persist_mode","node":node,"inprogress":inprog}));
+					true
+				} else { false }
+			},
+			"complete" => {
+				let only = op["chan"].as_u64().map(|c| c as usize);
+				node < n && self.complete_writes(node, op["which"].as_str().unwrap_or("oldest"), only)
+			},
 			"settle" => { self.settle(); true },
 			"settle_chain" => { self.settle_chain(); true },
 			"mine" => { for _ in 0..op["n"].as_u64().unwrap_or(1).max(1) { self.mine_block(true); } true },
@@ -1212,7 +1335,7 @@ fn build_net(run: u64, seed: u64, cfg: &Value, log: &Log) -> Net {
 	let push = cfg["push"].as_u64().unwrap_or(value * 500);
 	let n = match topo.as_str() { "fan" => k + 2, "fan2" => 2 * k + 2, "par" => 2, _ => k };
 	let cfgs = leak(create_chanmon_cfgs(n));
-	let persisters: &'static Vec<CountPersister> = leak((0..n).map(|_| CountPersister { updates: AtomicU64::new(0) }).collect());
+	let persisters: &'static Vec<CountPersister> = leak((0..n).map(|_| CountPersister::new()).collect());
 	let node_cfgs = leak(create_node_cfgs_with_persisters(n, cfgs, persisters.iter().collect()));
 	let mut uc = test_default_channel_config();
 	uc.channel_handshake_config.our_htlc_minimum_msat = 1000;
